@@ -391,6 +391,53 @@ unsafe fn iov_tag(msg: *const msghdr) -> u64 {
 }
 
 // ---------------------------------------------------------------------------
+// AddressSanitizer: our definitions replace ASan's own interceptors for these calls, so the
+// ranges the kernel may read or write are validated here (asan build only)
+
+#[cfg(vcheck_asan)]
+extern "C" {
+    fn __asan_region_is_poisoned(beg: *const c_void, size: usize) -> *const c_void;
+    fn __interceptor_pthread_create(th: *mut libc::pthread_t, attr: *const libc::pthread_attr_t, start: StartFn, arg: *mut c_void) -> c_int;
+    fn __interceptor_pthread_join(th: libc::pthread_t, ret: *mut *mut c_void) -> c_int;
+    fn __interceptor_mmap(addr: *mut c_void, len: size_t, prot: c_int, flags: c_int, fd: c_int, off: libc::off_t) -> *mut c_void;
+    fn __interceptor_munmap(addr: *mut c_void, len: size_t) -> c_int;
+}
+
+#[allow(unused_variables)]
+unsafe fn check_range(ptr: *const c_void, len: usize, what: &str) {
+    #[cfg(vcheck_asan)]
+    {
+        if len == 0 || ptr.is_null() {
+            return;
+        }
+        let bad = __asan_region_is_poisoned(ptr, len);
+        if !bad.is_null() {
+            let msg = format!(
+                "ASAN-RANGE: {} hands the kernel [{:p}, +{}) but byte at offset {} is not addressable\n",
+                what,
+                ptr,
+                len,
+                bad as usize - ptr as usize
+            );
+            raw::write_all(2, msg.as_bytes());
+            with_state(|s| s.anomalies.push(LedgerEvent { what: "asan-range".into(), fd: -1, detail: msg.clone() }));
+            libc::abort();
+        }
+    }
+}
+
+unsafe fn check_msghdr(msg: *const msghdr, what: &str) {
+    if msg.is_null() {
+        return;
+    }
+    for i in 0..(*msg).msg_iovlen as usize {
+        let v = *(*msg).msg_iov.add(i);
+        check_range(v.iov_base, v.iov_len, what);
+    }
+    check_range((*msg).msg_control, (*msg).msg_controllen as usize, what);
+}
+
+// ---------------------------------------------------------------------------
 // the interposed symbols
 
 #[no_mangle]
@@ -552,6 +599,7 @@ pub unsafe extern "C" fn sendmsg(fd: c_int, msg: *const msghdr, flags: c_int) ->
         return cvt(sc3(libc::SYS_sendmsg, fd as usize, msg as usize, flags as usize));
     }
     transport_tick();
+    check_msghdr(msg, "sendmsg");
     let total = iov_total(msg);
     let att_fds = cmsg_fds(msg);
     let att: Vec<(u64, u8)> = att_fds.iter().map(|&f| { let (o, e, _) = obj_of(f); (o, e) }).collect();
@@ -592,6 +640,7 @@ pub unsafe extern "C" fn send(fd: c_int, buf: *const c_void, len: size_t, flags:
         return cvt(sc6(libc::SYS_sendto, fd as usize, buf as usize, len, flags as usize, 0, 0));
     }
     transport_tick();
+    check_range(buf, len, "send");
     let tag = if len >= 8 { std::ptr::read_unaligned(buf as *const u64) } else { 0 };
     if send_fault() {
         trace_push("send!ENOBUFS", fd, len as i64, -(libc::ENOBUFS as i64), vec![], tag);
@@ -629,6 +678,7 @@ pub unsafe extern "C" fn recvmsg(fd: c_int, msg: *mut msghdr, flags: c_int) -> s
         return cvt(sc3(libc::SYS_recvmsg, fd as usize, msg as usize, flags as usize));
     }
     let cap = iov_total(msg);
+    check_msghdr(msg, "recvmsg");
     let r = if sched_on() {
         let nb = flags & libc::MSG_DONTWAIT != 0 || fd_is_nonblocking(fd);
         let op = Op::Recv { fd, nonblock: nb };
@@ -707,6 +757,7 @@ pub unsafe extern "C" fn recv(fd: c_int, buf: *mut c_void, len: size_t, flags: c
     if !active() {
         return cvt(sc6(libc::SYS_recvfrom, fd as usize, buf as usize, len, flags as usize, 0, 0));
     }
+    check_range(buf, len, "recv");
     let r = if sched_on() {
         let nb = flags & libc::MSG_DONTWAIT != 0 || fd_is_nonblocking(fd);
         let op = Op::Recv { fd, nonblock: nb };
@@ -950,6 +1001,15 @@ pub unsafe extern "C" fn shm_open(name: *const c_char, oflag: c_int, mode: libc:
 }
 
 unsafe fn do_mmap(addr: *mut c_void, len: size_t, prot: c_int, flags: c_int, fd: c_int, off: libc::off_t) -> *mut c_void {
+    #[cfg(vcheck_asan)]
+    let r = {
+        let p = __interceptor_mmap(addr, len, prot, flags, fd, off);
+        if p == libc::MAP_FAILED {
+            return p;
+        }
+        p as isize
+    };
+    #[cfg(not(vcheck_asan))]
     let r = sc6(libc::SYS_mmap, addr as usize, len, prot as usize, flags as usize, fd as usize, off as usize);
     if is_err(r) {
         raw::set_errno((-r) as i32);
@@ -977,6 +1037,12 @@ pub unsafe extern "C" fn mmap64(addr: *mut c_void, len: size_t, prot: c_int, fla
 
 #[no_mangle]
 pub unsafe extern "C" fn munmap(addr: *mut c_void, len: size_t) -> c_int {
+    #[cfg(vcheck_asan)]
+    let r = {
+        let x = __interceptor_munmap(addr, len);
+        if x < 0 { -(*libc::__errno_location() as isize) } else { 0 }
+    };
+    #[cfg(not(vcheck_asan))]
     let r = sc3(libc::SYS_munmap, addr as usize, len, 0);
     if active() {
         // only bookkeeping for mappings we saw being created as shared file mappings
@@ -1082,7 +1148,14 @@ pub unsafe extern "C" fn pthread_create(
         REAL = Some(std::mem::transmute::<*mut c_void, PthreadCreateFn>(p));
     }
     #[allow(static_mut_refs)]
-    let real = REAL.unwrap();
+    #[allow(unused_mut)]
+    let mut real = REAL.unwrap();
+    // in the AddressSanitizer build go through ASan's own interceptor so that its thread
+    // registry stays consistent
+    #[cfg(vcheck_asan)]
+    {
+        real = __interceptor_pthread_create;
+    }
     if !(active() && sched_on()) {
         return real(th, attr, start, arg);
     }
@@ -1107,7 +1180,12 @@ pub unsafe extern "C" fn pthread_join(th: libc::pthread_t, ret: *mut *mut c_void
         REAL = Some(std::mem::transmute::<*mut c_void, PthreadJoinFn>(p));
     }
     #[allow(static_mut_refs)]
-    let real = REAL.unwrap();
+    #[allow(unused_mut)]
+    let mut real = REAL.unwrap();
+    #[cfg(vcheck_asan)]
+    {
+        real = __interceptor_pthread_join;
+    }
     if active() && sched_on() {
         if let Some(t) = sched::task_of_pthread(th) {
             let op = Op::Join { task: t };
